@@ -66,7 +66,7 @@ def gen_case(g, nextval=None, max_shape=4, explicit=0.0):
                 ent.append([list(pt), 0])       # explicit default stored in the operand
         vals[nm] = ent
     return {"family": name, "shapes": shapes, "vals": vals,
-            "route": g.choice(["ref", "ref", "unc", "rand"]) if explicit == 0 else "ref"}
+            "route": g.choice(["ref", "ref", "unc", "rand", "noshape"]) if explicit == 0 else "ref"}
 
 
 def case_spec(case):
@@ -84,6 +84,12 @@ def build_tensors(case):
         if route == "unc" and all(v != 0 for _, v in ent):
             nest = _nest(sh, {tuple(p): v for p, v in ent})
             t = Tensor.fromUncompressed(list(idx), nest, shape=sh)
+        elif route == "noshape":
+            # no declared shape: shapes and active ranges are estimated from the content
+            t = Tensor(rank_ids=list(idx))
+            for pt, v in ent:
+                r = t.getPayloadRef(*pt)
+                r <<= v
         else:
             t = Tensor(rank_ids=list(idx), shape=sh)
             for pt, v in ent:
@@ -259,19 +265,37 @@ def run_kernel(case, tensors, flow, counts=None, abort_at=None, expect=None, hoo
 
     def level(i, cur, zc, point):
         if i == len(order):
+            body = flow.get("body") or {}
+            mstyle = body.get("mul", "pp")
             prod = None
             for nm, _ in ops:
                 v = cur[nm][0]
                 if prod is None:
                     prod = v
                 else:
-                    prod = prod * v
+                    # the same product written three ways: box * box, scalar * box, box * scalar
+                    if mstyle == "sp":
+                        prod = Payload.get(prod) * v
+                    elif mstyle == "ps":
+                        prod = prod * Payload.get(v)
+                    else:
+                        prod = prod * v
                     cnt.mul += 1
             old = zc.value
-            zc += prod
-            cnt.upd += 1
-            if old != 0:
+            astyle = body.get("acc", "iadd")
+            if astyle == "add_assign":
+                zc <<= zc + prod                   # box + box, then an assignment
                 cnt.add += 1
+                cnt.upd += 1
+            elif astyle == "radd":
+                zc <<= old + prod                  # scalar + box (the scalar is often 0), then an assignment
+                cnt.add += 1
+                cnt.upd += 1
+            else:
+                zc += prod
+                cnt.upd += 1
+                if old != 0:
+                    cnt.add += 1
             return
         v = order[i]
         parts = [n for n, _ in ops if cur[n][1] and cur[n][1][0] == v]
